@@ -1331,13 +1331,17 @@ class Session:
                 ediv=self.ltk_ediv,
                 rand=self.ltk_rand,
             )
-            if not self.peer_ltk:
-                logger.error("peer_ltk is None")
-            peer_ltk_key = PairingKeys.Key(
-                value=self.peer_ltk or b'',
-                authenticated=authenticated,
-                ediv=self.peer_ediv,
-                rand=self.peer_rand,
+            # An LTK that the peer did not distribute is not stored (an empty
+            # value would later be sent to the controller as an all-zero key)
+            peer_ltk_key = (
+                PairingKeys.Key(
+                    value=self.peer_ltk,
+                    authenticated=authenticated,
+                    ediv=self.peer_ediv,
+                    rand=self.peer_rand,
+                )
+                if self.peer_ltk is not None
+                else None
             )
             # Whoever initiated this pairing, on a later connection the Central
             # encrypts with the LTK the device that is then the Peripheral distributed
